@@ -15,7 +15,7 @@ HAS_CONCRETE = True
 CONCRETE_TIMEOUT = {'quick': 900, 'thorough': 6000}
 TRUSTED_BASE = C01.TRUSTED_BASE + ['A-bi-json (json.dumps / json.loads are mutually inverse on strings: the JSON text layer cannot be broken by a payload)']
 ASSUMPTIONS = ['nesting depth at most 2 (a string inside a nested grid inside a cell); widths and payload lengths unbounded; every code point',
-               'document-level splitting of several grids (GRID_SEP) is covered by the line-structure obligations plus the bounded sweep']
+               'document-level splitting of several grids: the regular-expression scans of parser.parse are proved to cut exactly at the blank lines between grids (task zinc/framing, ledger A-re-scan); no text kind emits a raw line break (zinc/noline)']
 EXPLANATION = ('A payload is an arbitrary string (a field ranging over all of Sigma*). ZINC: the escaping map is computed from the real writer per code-point class, '
                'the reader is proved (exact PEG semantics of the extracted grammar) to consume exactly the escaped text whatever follows, _unescape is proved to '
                'invert the map, and the whole-grid task proves that every neighbouring cell / tag comes back unchanged; the emitted text of every text-carrying '
@@ -32,7 +32,7 @@ def task_names(tier):
             if ver == '2.0' and k.startswith('xstr'):
                 continue
             names.append('zinc/roundtrip/%s/%s' % (ver, k))
-    names += ['zinc/composite', 'zinc/grid/2.0', 'zinc/grid/3.0', 'zinc/nested', 'zinc/noline']
+    names += ['zinc/composite', 'zinc/grid/2.0', 'zinc/grid/3.0', 'zinc/nested', 'zinc/noline', 'zinc/framing']
     for ver in ('2.0', '3.0'):
         for k in ['str', 'uri', 'ref1', 'bin', 'xstr_other']:
             if ver == '2.0' and k.startswith('xstr'):
@@ -46,6 +46,11 @@ def _run_task(name, tier):
     fmt, rest = name.split('/', 1)
     if fmt == 'json':
         r = C02.run_task(rest, tier)
+        r['task'] = name
+        return r
+    if rest == 'framing':
+        from props import C03
+        r = C03.run_task('framing', tier)
         r['task'] = name
         return r
     if rest in ('nested', 'noline'):
